@@ -49,16 +49,16 @@ type opSpec struct {
 }
 
 type opRec struct {
-	issued, returned      bool
-	issueT, retT          int64
-	issueStep, retStep    int
-	poisonedAtIssue       bool
-	n                     int
-	err                   error
-	dataOK                bool
-	viaSelect             bool // the call went through operation's select (it was not turned away by the c.err check)
-	replied               bool // the peer sent the correct reply frame for this request
-	inflightAtPoison      bool
+	issued, returned   bool
+	issueT, retT       int64
+	issueStep, retStep int
+	poisonedAtIssue    bool
+	n                  int
+	err                error
+	dataOK             bool
+	viaSelect          bool // the call went through operation's select (it was not turned away by the c.err check)
+	replied            bool // the peer sent the correct reply frame for this request
+	inflightAtPoison   bool
 }
 
 func pattern(off int64, n int64) []byte {
@@ -95,8 +95,8 @@ func flatten(callers []string) []opSpec {
 
 // Outcome of one execution.
 type Outcome struct {
-	Obs        string   // canonical final observation
-	Violations []Viol   // oracle failures
+	Obs        string    // canonical final observation
+	Violations []Viol    // oracle failures
 	Gray       []GrayObs // gray-area observations (not violations)
 }
 
@@ -207,7 +207,9 @@ func (st *c15State) peer(conn *VConn) {
 	readOne := func() bool {
 		m, err := w.Read()
 		if err != nil {
-			vs.Atomic(func() { st.peerNotes = append(st.peerNotes, "peer read: "+hexRe.ReplaceAllString(err.Error(), "0xPTR")) })
+			vs.Atomic(func() {
+				st.peerNotes = append(st.peerNotes, "peer read: "+hexRe.ReplaceAllString(err.Error(), "0xPTR"))
+			})
 			return false
 		}
 		id := -1
@@ -431,7 +433,9 @@ func (st *c15State) judge(earlyTimer bool) *Outcome {
 	}
 	for _, b := range st.peerBad {
 		if strings.HasPrefix(b, "ERRFRAME: ") {
-			out.Violations = append(out.Violations, Viol{Oracle: "request-mangled", Sig: "request-mangled:failed-request-sent-as-error-frame", Detail: strings.TrimPrefix(b, "ERRFRAME: ")})
+			// Not a clause of C15 (which speaks about replies reaching their requests, codec round trips, prompt failure and
+			// reporting): recorded as an observation, not as a violation.
+			out.Gray = append(out.Gray, GrayObs{"failed-request-sent-as-error-frame:" + faultTag, strings.TrimPrefix(b, "ERRFRAME: ")})
 			continue
 		}
 		viol("request-mangled", "-", "%s", b)
